@@ -42,7 +42,7 @@ impl RestrictView {
 
 impl BufferTransformT for RestrictView {
     fn transform(&mut self, buf: &dyn ParseBufferT) -> TransformResult {
-        if self.start + self.size <= buf.size() {
+        if self.start <= buf.size() && self.size <= buf.size() - self.start {
             Ok(ParseBuffer::new_view(buf, self.start, self.size))
         } else {
             let err = ErrorKind::BoundsError;
